@@ -394,6 +394,14 @@ def run_robust(ctx, fzf, sid, sc):
                 seen = False
                 try:
                     t.tmux("send-keys", "-t", "s", "-H", "1b", "5b", "32", "30", "31", "7e")
+                    # drain first: typed bursts of truncated escape sequences can leave a backlog in fzf's input buffer in which
+                    # every stale fragment costs one more key press (the reader's blocking "second chance" read) before it is
+                    # skipped; the probe key would queue up behind it.  Separate harmless presses, each its own read().
+                    for _ in range(40):
+                        if life.gone():
+                            break
+                        t.keys("Right")
+                        time.sleep(0.02)
                     for attempt in range(7):
                         time.sleep(0.3 if attempt < 4 else 2.0)      # the last attempts wait long: the machine may be busy
                         try:
